@@ -111,6 +111,8 @@ class Session:
         for rec in recs:
             key = hashlib.md5(json.dumps(rec.get("in", rec.get("stream", rec.get("msgs"))), sort_keys=True).encode()).hexdigest()
             obs = rec.get("obs")
+            if isinstance(obs, dict):
+                obs = [e for v in obs.get("v", []) for e in v]
             if isinstance(obs, list) and any(e.get("e") in ("call", "err", "out", "write") for e in obs):
                 self._distinct.add(key)
         return rejected
@@ -137,6 +139,8 @@ class Session:
                 s["msgs"] = [C.show_bytes(m) for m in s["msgs"]]
             if isinstance(s.get("obs"), list):
                 s["obs"] = [brief(e) for e in s["obs"]]
+            elif isinstance(s.get("obs"), dict):
+                s["obs"] = {"v": [[brief(e) for e in v] for v in s["obs"].get("v", [])[:2]]}
             self.cov["samples"].append(s)
 
     # ---------------------------------------------------------------- finish
